@@ -357,6 +357,7 @@ density_sketch<T, K, A> density_sketch<T, K, A>::deserialize(const void* bytes, 
   int64_t num_to_read = num_retained; // num_retained is uint32_t so this allows error checking
   while (num_to_read > 0) {
     uint32_t level_size;
+    ensure_minimum_memory(end_ptr - ptr, sizeof(level_size));
     ptr += copy_from_mem(ptr, level_size);
     ensure_minimum_memory(end_ptr - ptr, level_size * pt_size);
     Level lvl(allocator);
